@@ -179,7 +179,7 @@ def vector(req):
             d = defer.Deferred()        # (already wired above)
         else:
             hist = req.get("history")
-            if hist in ("removed", "refused"):
+            if hist in ("removed", "refused", "single"):
                 # earlier on this connection the application ran a service from the same key and removed it again (a
                 # restart), or Tor refused its first attempt; the request under test is unaffected by either
                 warm[0] = 1
@@ -188,7 +188,7 @@ def vector(req):
                 tor = txtorcon.Tor(reactor, proto, _tor_config=config) if req.get("via_tor") else None
                 if tor is not None:
                     # both creations are requested through the same Tor object
-                    w = tor.create_onion_service([8080], private_key=pk, version=req["version"])
+                    w = tor.create_onion_service([8080], private_key=pk, version=req["version"], single_hop=(hist == "single"))
                 else:
                     w = EphemeralOnionService.create(reactor, config, [8080], private_key=pk, version=req["version"])
                 w.addBoth(got.append)
@@ -202,7 +202,7 @@ def vector(req):
                 warm[0] = len(adds)
                 wdels[0] = len(dels)
                 reactor.given[:] = []
-            if hist in ("removed", "refused") and req.get("via_tor"):
+            if hist in ("removed", "refused", "single") and req.get("via_tor"):
                 d = tor.create_onion_service(ports, private_key=pk, version=req["version"], single_hop=req["single"],
                                              detach=req["detach"])
             else:
